@@ -29,7 +29,7 @@ struct Session {
     v: U,
     b_pub: [u8; 32],
     server_memo: Mutex<HashMap<[u8; 32], Option<([u8; 40], [u8; 20])>>>,
-    client_memo: Mutex<HashMap<(usize, [u8; 32], [u8; 32], u8), Option<([u8; 32], [u8; 40], [u8; 20])>>>,
+    client_memo: Mutex<HashMap<(usize, [u8; 32], [u8; 32], u8, [u8; 32]), Option<([u8; 32], [u8; 40], [u8; 20])>>>,
 }
 
 fn change_one_char(s: &str) -> String {
@@ -84,12 +84,12 @@ impl Session {
         r
     }
     /// Reference client view: (A, K, M1) from the typed credentials and the (B, salt) it received. None if S = 0.
-    fn ref_client(&self, variant: usize, b_recv: &[u8; 32], salt_recv: &[u8; 32], g: u8) -> Option<([u8; 32], [u8; 40], [u8; 20])> {
-        let key = (variant, *b_recv, *salt_recv, g);
+    fn ref_client(&self, variant: usize, b_recv: &[u8; 32], salt_recv: &[u8; 32], g: u8, n_le: &[u8; 32]) -> Option<([u8; 32], [u8; 40], [u8; 20])> {
+        let key = (variant, *b_recv, *salt_recv, g, *n_le);
         if let Some(r) = self.client_memo.lock().unwrap().get(&key) {
             return *r;
         }
-        let n = srp::n_builtin();
+        let n = U::from_le_bytes(n_le);
         let (tu, tp, _) = &self.variants[variant];
         let (un, pn) = (refmodel::misc::normalize(tu).unwrap(), refmodel::misc::normalize(tp).unwrap());
         let aa = U::from_le_bytes(&self.a);
@@ -97,7 +97,7 @@ impl Session {
         let x = U::from_le_bytes(&srp::x_bytes(&un, &pn, salt_recv));
         let u = U::from_le_bytes(&srp::u_bytes(&a_pub, b_recv));
         let s = srp::client_s(&U::from_le_bytes(b_recv), &x, &aa, &u, g, &n).to_le_padded::<32>();
-        let r = srp::interleave(&s).map(|k| (a_pub, k, srp::m1(&un, salt_recv, &a_pub, b_recv, &k, g, &srp::n_builtin_le())));
+        let r = srp::interleave(&s).map(|k| (a_pub, k, srp::m1(&un, salt_recv, &a_pub, b_recv, &k, g, n_le)));
         self.client_memo.lock().unwrap().insert(key, r);
         r
     }
@@ -138,17 +138,22 @@ fn exchange_inner(s: &Session, ch: &mut Chooser) -> Result<String, String> {
     // choice 2: server -> client (B, salt)
     // ... or the generator the client is told: the eight single-bit changes of 7, and 0 and 1
     const G_ALT: [u8; 10] = [6, 5, 3, 15, 23, 39, 71, 135, 0, 1];
-    let c2 = ch.pick(1 + 256 + 256 + G_ALT.len(), "wire-B-salt");
-    let (b_recv, salt_recv, g_recv) = if c2 == 0 {
-        (b_sent, s.salt, GENERATOR)
+    // ... or the modulus the client is told: a few single-bit changes of N (bit 0 makes it even)
+    const N_BITS: [usize; 7] = [0, 1, 7, 8, 64, 128, 255];
+    let c2 = ch.pick(1 + 256 + 256 + G_ALT.len() + N_BITS.len(), "wire-B-salt");
+    let n_true = LARGE_SAFE_PRIME_LITTLE_ENDIAN;
+    let (b_recv, salt_recv, g_recv, n_recv) = if c2 == 0 {
+        (b_sent, s.salt, GENERATOR, n_true)
     } else if c2 <= 256 {
-        (flip(&b_sent, c2 - 1), s.salt, GENERATOR)
+        (flip(&b_sent, c2 - 1), s.salt, GENERATOR, n_true)
     } else if c2 <= 512 {
-        (b_sent, flip(&s.salt, c2 - 257), GENERATOR)
+        (b_sent, flip(&s.salt, c2 - 257), GENERATOR, n_true)
+    } else if c2 <= 512 + G_ALT.len() {
+        (b_sent, s.salt, G_ALT[c2 - 513], n_true)
     } else {
-        (b_sent, s.salt, G_ALT[c2 - 513])
+        (b_sent, s.salt, GENERATOR, flip(&n_true, N_BITS[c2 - 513 - G_ALT.len()]))
     };
-    if srp::client_public(&U::from_le_bytes(&s.a), g_recv, &srp::n_builtin()).is_zero() {
+    if srp::client_public(&U::from_le_bytes(&s.a), g_recv, &U::from_le_bytes(&n_recv)).is_zero() {
         return Ok("client-key-would-be-zero".into()); // g = 0: the documented refusal of the client's own key (C04)
     }
     let bk = match PublicKey::from_le_bytes(b_recv) {
@@ -156,10 +161,10 @@ fn exchange_inner(s: &Session, ch: &mut Chooser) -> Result<String, String> {
         Err(_) => return Ok("client-refuses-B".into()), // only possible for 0 / N: a refusal
     };
     let (tun, tpn) = (ns(tu), ns(tp));
-    let client = catch(move || SrpClientChallenge::new(tun, tpn, g_recv, LARGE_SAFE_PRIME_LITTLE_ENDIAN, bk, salt_recv)).map_err(|m| format!("SrpClientChallenge::new panicked: {m}"))?;
+    let client = catch(move || SrpClientChallenge::new(tun, tpn, g_recv, n_recv, bk, salt_recv)).map_err(|m| format!("SrpClientChallenge::new panicked: {m}"))?;
     let a_sent = *client.client_public_key();
     let m1_sent = *client.client_proof();
-    let rc = s.ref_client(variant, &b_recv, &salt_recv, g_recv);
+    let rc = s.ref_client(variant, &b_recv, &salt_recv, g_recv, &n_recv);
     if let Some((ra, _rk, rm1)) = rc {
         if a_sent != ra || m1_sent != rm1 {
             return Err(format!("client values differ from the reference for its own view (A {} vs {}, M1 {} vs {}) (see C03)", hex(&a_sent), hex(&ra), hex(&m1_sent), hex(&rm1)));
@@ -367,7 +372,7 @@ pub fn run(tier: Tier, seed: u64) -> i32 {
                 signature: format!("C02|{class}"),
                 scenario: "login-with-adversary".into(),
                 replay: json!({"session": s.name, "registered": [s.user, s.pass], "salt": hex(&s.salt), "b": hex(&s.b), "a": hex(&s.a), "choices": choices,
-                    "choice_points": ["typed-credentials (0 same,1 case variant,2 one char,3 length,4 username)", "B bit 1..256 / salt bit 257..512 / 513..522 = generator told to the client: 6 5 3 15 23 39 71 135 0 1", "A bit 1..256 / M1 bit 257..416 / 417 = A replaced by A+N", "M2 bit 1..160"]}),
+                    "choice_points": ["typed-credentials (0 same,1 case variant,2 one char,3 length,4 username)", "B bit 1..256 / salt bit 257..512 / 513..522 = generator told to the client: 6 5 3 15 23 39 71 135 0 1 / 523..529 = modulus told to the client with bit 0 1 7 8 64 128 255 changed", "A bit 1..256 / M1 bit 257..416 / 417 = A replaced by A+N", "M2 bit 1..160"]}),
                 detail: json!({ "message": msg }),
             });
         }
